@@ -29,11 +29,11 @@ Reduce(i, j) ==
     /\ UNCHANGED <<pat, cands, lb>>
 
 \* the property for the whole candidate list
-Winner == LET B == BestSetL(pat, Range(cands), lb)
+Winner == LET B == BestSetL(pat, RangeOf(cands), lb)
           IN IF B = {} THEN <<>> ELSE <<CHOOSE x \in B : TRUE>>
-WinnerUnique == Cardinality(BestSetL(pat, Range(cands), lb)) <= 1
+WinnerUnique == Cardinality(BestSetL(pat, RangeOf(cands), lb)) <= 1
 FinalOK == Len(pool) = 1 => pool[1] \in {Winner} \cup
               (IF Len(cands) = 1 THEN {<<cands[1]>>} ELSE {})   \* a pool of one is never reduced
 \* every element of the pool is None or a candidate that matches or has not been compared yet
-PoolOK == \A i \in 1..Len(pool) : pool[i] = <<>> \/ pool[i][1] \in Range(cands)
+PoolOK == \A i \in 1..Len(pool) : pool[i] = <<>> \/ pool[i][1] \in RangeOf(cands)
 =============================================================================
